@@ -490,6 +490,13 @@ func c13Inputs(b *bed, thorough bool) []c13Input {
 			out = append(out, c13Input{State: st, Method: "POST", Path: "/pair-verify", CType: refctl.CTPairing, Body: refctl.VerifyM1(lowOrder[n]), Class: "M1:public-key-" + n})
 		}
 	}
+	// encrypted items far longer than a session frame (a TLV value may have any length)
+	for _, n := range []int{1024, 1025, 1040, 1041, 2000, 70000} {
+		for _, st := range []string{"fresh", "verify-M1", "setup-M3", "verified"} {
+			out = append(out, c13Input{State: st, Method: "POST", Path: "/pair-verify", CType: refctl.CTPairing, Body: refctl.TLVEncode(refctl.T(refctl.TagState, []byte{3}), refctl.T(refctl.TagEncrypted, pat(n, 5))), Class: fmt.Sprintf("M3:encrypted-data-%d-bytes", n)})
+			out = append(out, c13Input{State: st, Method: "POST", Path: "/pair-setup", CType: refctl.CTPairing, Body: refctl.TLVEncode(refctl.T(refctl.TagState, []byte{5}), refctl.T(refctl.TagEncrypted, pat(n, 6))), Class: fmt.Sprintf("M5:encrypted-data-%d-bytes", n)})
+		}
+	}
 	for _, vr := range c13DynVariants {
 		out = append(out, c13Input{State: "setup-M3", Method: "POST", Path: "/pair-setup", CType: refctl.CTPairing, Dyn: "M5-sealed:" + vr, Class: "M5-correctly-sealed:" + vr})
 		out = append(out, c13Input{State: "verify-M1", Method: "POST", Path: "/pair-verify", CType: refctl.CTPairing, Dyn: "M3-sealed:" + vr, Class: "M3-correctly-sealed:" + vr})
@@ -595,7 +602,7 @@ func init() {
 	fw.Register(&fw.Check{
 		ID:    "C13",
 		Level: "exploration",
-		Rule:  "for every protocol state reachable by a prefix of a correct exchange (fresh connection; pair-setup after M1 and after a right-code M3; pair-verify after M1; verified encrypted session) × every endpoint (/pair-setup, /pair-verify, /pairings, /characteristics GET+PUT, /accessories, /resource, /identify, unknown paths and methods) an input alphabet derived mechanically from the correct next messages: empty body, every prefix, every item removed / duplicated / re-tagged, item lengths 0,1,255,256,300, encrypted payloads of length 0..17 and with each of the 16 tag bytes flipped, key-exchange / finish messages CORRECTLY sealed under the running exchange's key but with malformed signed sub-TLVs (key and signature lengths 0/31/33/63/65, missing items, names of stored entities with a short or no key), method and state bytes 0..255, garbage; JSON bodies with wrong types per field, 1e999, -0, 2^64, nesting depth 10000 / 100000, duplicate keys, 1 MiB string, 5000 entries, invalid UTF-8; malformed id queries. Real transport over TCP. Oracle per input: no handler panic (net/http's panic log, attributed by remote address), a well-formed HTTP response (any status) instead of a dropped connection, then a correct pair-verify on the SAME connection after at most one rejected start (or, on a verified connection, a further encrypted request), and a correct handshake + read + write on a NEW connection. distinct_nontrivial = distinct (endpoint, state, status) classes Values for float and bool targets: \"NaN\", \"Inf\", \"1e999\", 1e999, \"0x10\", null, arrays, objects, ±1e308, 5e-324 (a verified observer is subscribed to the targets, so changes run the notification path); pair-verify start requests whose public key is 0, 1, p−1, p, p+1, 2^256−1 or a point of order 8.",
+		Rule:  "for every protocol state reachable by a prefix of a correct exchange (fresh connection; pair-setup after M1 and after a right-code M3; pair-verify after M1; verified encrypted session) × every endpoint (/pair-setup, /pair-verify, /pairings, /characteristics GET+PUT, /accessories, /resource, /identify, unknown paths and methods) an input alphabet derived mechanically from the correct next messages: empty body, every prefix, every item removed / duplicated / re-tagged, item lengths 0,1,255,256,300, encrypted payloads of length 0..17 and with each of the 16 tag bytes flipped, key-exchange / finish messages CORRECTLY sealed under the running exchange's key but with malformed signed sub-TLVs (key and signature lengths 0/31/33/63/65, missing items, names of stored entities with a short or no key), method and state bytes 0..255, garbage; JSON bodies with wrong types per field, 1e999, -0, 2^64, nesting depth 10000 / 100000, duplicate keys, 1 MiB string, 5000 entries, invalid UTF-8; malformed id queries. Real transport over TCP. Oracle per input: no handler panic (net/http's panic log, attributed by remote address), a well-formed HTTP response (any status) instead of a dropped connection, then a correct pair-verify on the SAME connection after at most one rejected start (or, on a verified connection, a further encrypted request), and a correct handshake + read + write on a NEW connection. distinct_nontrivial = distinct (endpoint, state, status) classes Values for float and bool targets: \"NaN\", \"Inf\", \"1e999\", 1e999, \"0x10\", null, arrays, objects, ±1e308, 5e-324 (a verified observer is subscribed to the targets, so changes run the notification path); encrypted items of 1024…70000 bytes in pair-verify finish and pair-setup key-exchange messages; pair-verify start requests whose public key is 0, 1, p−1, p, p+1, 2^256−1 or a point of order 8.",
 		Run:   c13Run,
 		Replay: func(c *fw.Ctx, raw json.RawMessage) {
 			var in c13Input
